@@ -175,8 +175,83 @@ pub fn history(index: u64, mut rng: Rng, tier: Tier, mode: u8) -> Outcome {
         }
         let epoch = w.v.epoch();
         let verified: Vec<u64> = backing.keys().cloned().collect();
-        let kind = if directed { if verified.is_empty() { 0 } else { 1 } } else { rng.weighted(&[if verified.len() < 3 { 40 } else { 12 }, if verified.is_empty() { 0 } else { 34 }, 8, 5, 4, 22]) };
+        // proven, healthy sectors of the miner (candidates for a replica update), with or without data
+        let updatable: Vec<(u64, u64, u64)> = {
+            let loc = locations(&ms);
+            let dl = deadline_at(&policy, ms.proving_period_start, epoch);
+            ms.deadlines
+                .iter()
+                .flat_map(|d| d.partitions.iter().flat_map(|p| p.active()))
+                .filter_map(|sn| loc.get(&sn).map(|(d, p)| (sn, *d, *p)))
+                .filter(|(_, d, _)| (*d + 48 - dl.index) % 48 >= 2)
+                .collect()
+        };
+        let kind = if directed { if verified.is_empty() { 0 } else { 1 } } else { rng.weighted(&[if verified.len() < 3 { 40 } else { 12 }, if verified.is_empty() { 0 } else { 34 }, 8, 5, 4, 22, if updatable.is_empty() { 0 } else { 12 }, 10]) };
         match kind {
+            6 => {
+                // replica update with verified pieces: of a data-free sector (legitimate) or of one that already
+                // holds verified data (must be refused: its earlier claims would be orphaned)
+                let cc: Vec<(u64, u64, u64)> = updatable.iter().filter(|(sn, ..)| !backing.contains_key(sn)).cloned().collect();
+                let (sn, d, p) = if !cc.is_empty() && rng.chance(2, 3) { *rng.pick(&cc) } else { *rng.pick(&updatable) };
+                let Some(s) = ms.sectors.get(&sn).cloned() else { continue };
+                let k = 1 + rng.below(2) as usize;
+                let base = 20 + rng.below(8) as u32;
+                let life = s.expiration - epoch;
+                let mut reqs = vec![];
+                let mut pieces = vec![];
+                for j in 0..k {
+                    piece_ctr += 1;
+                    let size = PaddedPieceSize(1u64 << (base + j as u32));
+                    let data = make_piece_cid(format!("up{index}-{piece_ctr}").as_bytes());
+                    reqs.push(AllocationRequest { provider: m.addr.id().unwrap(), data, size, term_min: policy.minimum_verified_allocation_term.min(life.max(1)).max(policy.minimum_verified_allocation_term), term_max: (life + rng.range(1, 300) * DAY).max(policy.minimum_verified_allocation_term).min(policy.maximum_verified_allocation_term), expiration: epoch + rng.range(2, 40) * DAY });
+                    pieces.push(PieceInfo { cid: data, size });
+                }
+                let total: u64 = reqs.iter().map(|r| r.size.0).sum();
+                let (r, _) = transfer_to_registry(&w.v, &client, &whole(total), reqs.clone(), vec![]);
+                if !r.code.is_success() {
+                    o.op(format!("{step}: e{epoch} allocate for replica update -> {}", r.code));
+                    continue;
+                }
+                let resp: frc46_token::token::types::TransferReturn = ret(&r).unwrap();
+                let ar: fil_actor_verifreg::AllocationsResponse = resp.recipient_data.deserialize().unwrap();
+                ms = after_msg(&w, None, true, &mut backing, &mut prev_vr, &mut o, &format!("step {step} allocate"), &ms);
+                let manifests: Vec<PieceActivationManifest> = pieces.iter().zip(ar.new_allocations.iter()).map(|(pc, id)| PieceActivationManifest { cid: pc.cid, size: pc.size, verified_allocation_key: Some(VerifiedAllocationKey { client: client.id().unwrap(), id: *id }), notify: vec![] }).collect();
+                let had_data = backing.contains_key(&sn);
+                let (r, inv) = prove_replica_updates(&w.v, &m, &m.worker, vec![(sn, d, p, manifests)], true);
+                o.op(format!("{step}: e{epoch} replica update of sector {sn} ({}) with allocations {:?} -> {} {}", if had_data { "already holds verified data" } else { "data-free" }, ar.new_allocations, r.code, &r.message[..r.message.len().min(80)]));
+                if r.code.is_success() {
+                    o.count(if had_data { "replica_updates_of_verified_sectors_accepted" } else { "replica_updates_ok" });
+                }
+                o.hash_mix(0x600 + (r.code.is_success() as u64));
+                ms = after_msg(&w, inv.as_ref(), r.code.is_success(), &mut backing, &mut prev_vr, &mut o, &format!("step {step} replica-update"), &ms);
+            }
+            7 => {
+                // a data-free (committed-capacity) sector, for later replica updates
+                let sn = w.miners[0].next_sector;
+                w.miners[0].next_sector += 1;
+                let max_pc = fil_actor_miner::max_prove_commit_duration(&policy, m.seal_proof).unwrap();
+                let (r, _) = precommit(&w.v, &m, &m.worker, &[sn], epoch + policy.min_sector_expiration + max_pc + rng.range(1, 60) * DAY, None);
+                o.op(format!("{step}: e{epoch} precommit data-free sector {sn} -> {}", r.code));
+                if !r.code.is_success() {
+                    continue;
+                }
+                stop = !advance_light(&w, epoch + policy.pre_commit_challenge_delay + 1 + rng.range(0, 200), &mut o);
+                if stop {
+                    break;
+                }
+                let (r, inv) = prove_commit(&w.v, &m, &m.worker, &[sn], &BTreeSet::new(), true);
+                o.op(format!("{step}: e{} prove-commit data-free sector {sn} -> {}", w.v.epoch(), r.code));
+                ms = after_msg(&w, inv.as_ref(), r.code.is_success(), &mut backing, &mut prev_vr, &mut o, &format!("step {step} prove-commit cc"), &ms);
+                if r.code.is_success() {
+                    o.count("data_free_sectors_onboarded");
+                    let to = w.v.epoch() + 2 * DAY + rng.range(0, DAY);
+                    stop = !advance_light(&w, to, &mut o);
+                    if stop {
+                        break;
+                    }
+                    ms = after_msg(&w, None, true, &mut backing, &mut prev_vr, &mut o, &format!("step {step} after first PoSt"), &ms);
+                }
+            }
             0 => {
                 // verified onboarding of one sector with 1-3 pieces
                 let k = if directed { 2 } else { 1 + rng.below(3) as usize };
